@@ -40,16 +40,23 @@ BUDGET_S = {"quick": 400, "thorough": 3000}
 
 
 def streams(ctx):
-    return [("triples", ctx.scale(200, 2500)), ("two_projects", ctx.scale(24, 300))]
+    return [("triples", ctx.scale(200, 2500)), ("two_projects", ctx.scale(24, 300)), ("return_default_probe", ctx.scale(16, 150))]
 
 
 T_WIDE = T + ("optional", "list", "union")
 
 
+PROBE = [False]  # stream return_default_probe: truths whose return entry carries a default (bound to one recorded finding)
+
+
 def rand_ir(r, name):
-    if r.random() < 0.5:
+    if r.random() < 0.5 or PROBE[0]:
+        # (a fifth of these interfaces document what they return: type and description, no default - numeric return defaults
+        # crash two emitters of the unchanged tree, see DESIGN 2.2)
+        wr = __import__("random").Random(r.random()).random() < 0.2
         return irgen.rand_ir(r, nparams=r.randint(1, 4), type_kinds=T, default_kinds=D, all_defaults=True,
-                             with_return=False, name=name, doc_kinds=("plain", "plain", "punct"))
+                             with_return=wr or PROBE[0], return_default=PROBE[0], name=name,
+                             doc_kinds=("plain", "plain", "punct"))
     # wider: compound types and required parameters (signature-legal: defaults form a suffix)
     return irgen.rand_ir(r, nparams=r.randint(1, 5), type_kinds=T_WIDE, default_kinds=D + ("absent",), with_return=False,
                          name=name)
@@ -260,6 +267,7 @@ def run_two_projects(ctx, P, stream, idx):
 def run_case(ctx, P, stream, idx):
     if stream == "two_projects":
         return run_two_projects(ctx, P, stream, idx)
+    PROBE[0] = stream == "return_default_probe"
     r = ctx.rng(stream, idx)
     method = r.random() < 0.5
     if method:
@@ -328,7 +336,13 @@ def run_case(ctx, P, stream, idx):
             if rc != 0:
                 P.count("sync.exit-nonzero")
                 last = err.strip().splitlines()[-1] if err.strip() else ""
-                P.deviation("sync.command-fails|%s,round=%d,%s" % (feats, rnd, last.split(":")[0][:40]),
+                mech = ""
+                cdd_frames = [l for l in err.splitlines() if "/cdd/" in l and l.strip().startswith("File")]
+                if stream == "return_default_probe" and cdd_frames and cdd_frames[-1].split("/cdd/")[-1].startswith((
+                        "argparse_function/emit.py", "function/emit.py")):
+                    # (the innermost package frame is an emitter working on the return entry's default)
+                    mech = "sync.non-str-return-default-crashes-emitter|"
+                P.deviation(mech + "sync.command-fails|%s,round=%d,%s" % (feats, rnd, last.split(":")[0][:40]),
                             "sync exited %d: %s" % (rc, last[:200]), dict(w, round=rnd, stderr=err))
                 break
             P.monitor("fs.snapshot.compared")
